@@ -176,6 +176,12 @@ def _enable_jump_budget(budget):
                 me = S.by_thread.get(threading.get_ident())
                 if me is None or me is not S.cur:
                     return
+                # the budget is a (generous, quadratic) function of the size
+                # of the largest input / candidate seen so far: a step on an
+                # input that has grown huge is slow, not hanging
+                n = CTX.rec.max_tokens if CTX.rec is not None else 0
+                if S.jumps <= S.jump_budget + 30 * n * n:
+                    return
                 S.jumps = -10**12
                 S.hang_actor = me.name
                 S.hang_stack = ''.join(traceback.format_stack()[-8:-1])
